@@ -232,3 +232,26 @@ func ParallelFor(n, k int, f func(i int) error) error {
 	wg.Wait()
 	return first
 }
+
+// DoSession runs a sequence of worlds one after the other in ONE brand-new
+// worker process (process-global state survives from one to the next).
+func DoSession(bin string, reqs []*Req, gomaxprocs int) ([]*Resp, error) {
+	env := os.Environ()
+	if gomaxprocs > 0 {
+		env = append(env, fmt.Sprintf("GOMAXPROCS=%d", gomaxprocs))
+	}
+	w := &worker{bin: bin, env: env}
+	defer w.stop()
+	var out []*Resp
+	for _, r := range reqs {
+		resp, err := w.do(r)
+		if err != nil {
+			return nil, err
+		}
+		out = append(out, resp)
+		if resp.Crashed != "" || resp.TimedOut {
+			break
+		}
+	}
+	return out, nil
+}
